@@ -176,6 +176,11 @@ UpdateOut(a, d, n) ==
     CASE a.cb = "cancel" -> {Out(TRUE, {"ok"}, d, FALSE)}
       [] a.cb \in {"set", "retry"} -> wc(a.body, TRUE, a.exp)     \* "retry": the callback first asks to be called again
       [] a.cb = "err"    -> Unch(d, {"other"})                      \* the callback fails: nothing is stored
+      \* the callback touches the key before it returns the new body: a touch keeps the CAS, so the write goes through - on
+      \* top of the touched version (one revision further); the expiry of the write replaces the touched one
+      [] a.cb = "touchset" ->
+            LET d1 == IF HasBody(d) THEN [d EXCEPT !.exp = "E2", !.rev = @ + 1] ELSE d IN
+            WriteCasOut([a EXCEPT !.cas = d1.cas, !.hasbody = TRUE, !.opt = ""], d1, n)
       [] a.cb = "del"    -> IF HasBody(d) THEN wc(NoBody, FALSE, a.exp) ELSE Wild(d)
       [] a.cb = "setexp" -> IF HasBody(d) THEN wc(d.body, TRUE, "E2") ELSE Wild(d)
       [] a.cb = "inc"    -> IF HasBody(d) /\ d.body.k = "num" THEN wc(NumBody(d.body.n + 1), TRUE, a.exp)
